@@ -68,12 +68,16 @@ def run(ctx):
             for r1, r2 in reps:
                 convs.append({"kind": "conv", "i": i, "j": j, "R1": r1, "R2": r2})
             if i < j:
-                mixeds.append({"kind": "mixed", "i": i, "j": j, "R": "i64"})
+                mixeds.append({"kind": "mixed", "i": i, "j": j, "R": "i64", "R2": "i64"})
+            if cat_pair and "kK" not in (pool[i - 1][0], pool[j - 1][0]):
+                # mixed reps (catalogue temperature units only: every scaled value stays far inside the common rep)
+                for r1, r2 in (("u16", "i32"), ("i16", "i64"), ("i32", "i64"), ("i32", "i16")):
+                    mixeds.append({"kind": "mixed", "i": i, "j": j, "R": r1, "R2": r2})
     if ctx.tier == "quick":
         rnd.shuffle(convs)
         convs = [c for c in convs if c["i"] <= 3 and c["j"] <= 3] + convs[:90]
         rnd.shuffle(mixeds)
-        mixeds = [m for m in mixeds if m["j"] <= 3] + mixeds[:24]
+        mixeds = [m for m in mixeds if m["j"] <= 3 and m["i"] <= 3] + mixeds[:30]
 
     def make_src(b):
         L = [pre, "int main(int argc, char **argv) {", "  uint64_t seed = argc > 1 ? (uint64_t)std::atoll(argv[1]) : 1;"]
@@ -84,7 +88,7 @@ def run(ctx):
                 lo = -40000 if c["R1"][0] == "i" else 0
                 L.append('  auv::pconv<%s, %s, %s, %s>(%d, %d, "%s", "%s", "%s", %dLL, %dLL, seed);' % (t1, CXX_T[c["R1"]], t2, CXX_T[c["R2"]], c["i"], c["j"], k["A"], k["B"], k["C"], lo, 400000 if c["R2"] == "i64" else 40000))
             else:
-                L.append('  auv::pmixed<%s, %s, %s>(%d, %d, "%s", "%s", "%s", "%s", seed);' % (t1, t2, CXX_T[c["R"]], c["i"], c["j"], k["pa1"], k["pb1"], k["pa2"], k["pb2"]))
+                L.append('  auv::pmixed<%s, %s, %s, %s>(%d, %d, "%s", "%s", "%s", "%s", seed);' % (t1, t2, CXX_T[c["R"]], CXX_T[c["R2"]], c["i"], c["j"], k["pa1"], k["pb1"], k["pa2"], k["pb2"]))
         return "\n".join(L + ["  return 0;", "}"]) + "\n"
     cfgs = ["c20", "g14"] if ctx.tier == "quick" else ["c20", "g14", "c14", "g20"]
     recs, dropped, nprog = core.harness_farm(ctx, {"conv": convs, "mixed": mixeds}, make_src, cfgs, [str(ctx.seed)], batch=6, tag="pt")
